@@ -9,8 +9,13 @@ Input (one command per line, tokens separated by single spaces):
         empty host instance whose class type-checks the attributes in <decl> ("x,y" or "-")
   put <path> <val>      structural set-up: assign along a path
   ra | wa <val> | da | rt | wt <val> | dt | dp | sp <val> | cp | cwa <val> | cra | cwt <val> | cdt
+  hw <c|i> <val|-> <attrs>     with_<alias>([val], **attrs)       c = copying, i = _inplace=True
+  hu <c|i> <val|-> <attrs>     update_<alias>([val], **attrs)     attrs = `x=i5;d=D` or `-`
+  ht <c|i> <xf|-> <xfs>        transform_<alias>([f], **fs)       xf = id | a<int> | c<val>; xfs = `x=a10;d=id` or `-`
+  hr <c|i>                     reset_<alias>
+  (<chk> = 2: the alias attribute is annotated with the nested spec class)
   parse <path>          the path parser alone
-Value tokens: i<int>  s<nat>  L<a>,<b>,…  O<decl>  D
+Value tokens: i<int>  s<nat>  L<a>,<b>,…  O<decl>  D  N<decl>:<int>
 Output (one line per input line):
   cfg    -> `ok` | `invalid` | `unsupported`
   put/op -> `<res> w<warnings> ;; <cur> | <old> | …`  with instance = `ov=<val|-> host=<val> al=<val|!Err>`
@@ -30,6 +35,10 @@ def parseVal (s : String) : Option Val :=
   | 'L' :: r => ((splitComma (String.ofList r)).mapM String.toInt?).map .lst
   | 'O' :: r => some (.obj (splitComma (String.ofList r)) [])
   | ['D'] => some (.dict [])
+  | 'N' :: r =>   -- N<decl>:<int> = an instance with x = the int and d = {"m": the int}
+    match (String.ofList r).splitOn ":" with
+    | [d, n] => n.toInt?.map fun k => .obj (splitComma d) [("x", .int k), ("d", .dict [("m", .int k)])]
+    | _ => none
   | _ => none
 
 def insertSorted (p : String × String) : List (String × String) → List (String × String)
@@ -96,8 +105,30 @@ def pathOf (s : String) : Except String (List Seg) :=
       | some p => .ok p
 
 structure St where
-  cfg : Cfg
+  x : XCfg
   w : World
+
+def St.cfg (st : St) : Cfg := st.x.base
+
+def parsePairs {α : Type} (f : String → Option α) (s : String) : Option (List (String × α)) :=
+  if s == "-" || s == "" then some []
+  else (s.splitOn ";").mapM fun t =>
+    match t.splitOn "=" with
+    | [n, v] => (f v).map fun a => (n, a)
+    | _ => none
+
+def parseXf (s : String) : Option Xf :=
+  if s == "id" then some .ident
+  else match s.toList with
+    | 'a' :: r => (String.ofList r).toInt?.map .add
+    | 'c' :: r => (parseVal (String.ofList r)).map .const
+    | _ => none
+
+def parseOpt {α : Type} (f : String → Option α) (s : String) : Option (Option α) :=
+  if s == "-" then some none else (f s).map some
+
+def parseInplace (s : String) : Option Bool :=
+  if s == "i" then some true else if s == "c" then some false else none
 
 def parseOp (ts : List String) : Option Op :=
   match ts with
@@ -116,6 +147,20 @@ def parseOp (ts : List String) : Option Op :=
   | ["cdt"] => some .cowDelTarget
   | _ => none
 
+def parseXOp (ts : List String) : Option XOp :=
+  match ts with
+  | ["hw", io, nv, attrs] => do
+    let i ← parseInplace io; let v ← parseOpt parseVal nv; let a ← parsePairs parseVal attrs
+    pure (.helper (.write i (.withA v a)))
+  | ["hu", io, nv, attrs] => do
+    let i ← parseInplace io; let v ← parseOpt parseVal nv; let a ← parsePairs parseVal attrs
+    pure (.helper (.write i (.updA v a)))
+  | ["ht", io, f, ats] => do
+    let i ← parseInplace io; let g ← parseOpt parseXf f; let a ← parsePairs parseXf ats
+    pure (.helper (.write i (.trA g a)))
+  | ["hr", io] => (parseInplace io).map fun i => .helper (.reset i)
+  | ts => (parseOp ts).map .base
+
 def handle (st : St) (line : String) : St × String :=
   match (line.trimAscii.toString.splitOn " ").filter (· ≠ "") with
   | ["cfg", pass, tr, fb, dep, chk, spec, path, decl] =>
@@ -127,7 +172,9 @@ def handle (st : St) (line : String) : St × String :=
         { path := p, passthrough := pass == "1",
           transform := if tr == "1" then some tr1 else if tr == "2" then some tr2 else none,
           fallback := fbv, deprecated := dep == "1", checked := chk == "1", specHost := spec == "1" }
-      ({ cfg := cfg, w := ⟨⟨.obj (splitComma decl) [], none⟩, [], 0⟩ }, "ok")
+      -- chk = 2: the alias attribute is annotated with the nested spec class (same `decl` as the host)
+      let proto : Option Val := if chk == "2" then some (.obj (splitComma decl) []) else none
+      ({ x := { base := cfg, proto := proto }, w := ⟨⟨.obj (splitComma decl) [], none⟩, [], 0⟩ }, "ok")
   | ["put", path, v] =>
     match pathOf path, parseVal v with
     | .ok p, some v =>
@@ -142,10 +189,10 @@ def handle (st : St) (line : String) : St × String :=
     | .error m => (st, m)
     | .ok p => (st, " ".intercalate ("ok" :: p.map showSeg))
   | ts =>
-    match parseOp ts with
+    match parseXOp ts with
     | none => (st, "bad-op")
     | some op =>
-      let (w', o) := step st.cfg st.w op
+      let (w', o) := xstep st.x st.w op
       ({ st with w := w' }, showRes o.res ++ s!" w{o.warns} ;; " ++ showWorld st.cfg w')
 
 partial def loop (h : IO.FS.Stream) (out : IO.FS.Stream) (st : St) : IO Unit := do
@@ -157,5 +204,5 @@ partial def loop (h : IO.FS.Stream) (out : IO.FS.Stream) (st : St) : IO Unit := 
 
 def main : IO Unit := do
   loop (← IO.getStdin) (← IO.getStdout)
-    { cfg := { path := [], passthrough := false, transform := none, fallback := none },
+    { x := { base := { path := [], passthrough := false, transform := none, fallback := none } },
       w := ⟨⟨.obj [] [], none⟩, [], 0⟩ }
